@@ -79,6 +79,9 @@ def run(ctx):
     from . import c10
     for name in ("check_gate", "check_equality", "check_number_equality"):
         ctx.attempt(name, getattr(c10, name), ctx, lib)
+    # the ordering comparators answer with Variable's Ord on two numbers: its case table (shared with C02 / C10)
+    from .c02 import check_internal_order
+    ctx.attempt("check_internal_order", check_internal_order, ctx, lib)
     # where a projection's right-hand side (and every operand) ends is decided by the parser's binding powers: the
     # operand-power rows of C04 on the same facts
     from ..parsing import lbp_table
